@@ -37,10 +37,14 @@ pub enum Item {
     /// only): the interpreter must return an error, the compiled engines are not run
     Mem { region: MemRegion, op: MemOp, size: u8, reg: u8, tmp: u8, pos: u16, split: i16, oob: u8 },
     LdAbs { size: u8, pos: u16 },
-    LdInd { size: u8, src: u8, pos: u16, split: u16 },
+    /// `neg` = Some(imm < 0): the index register is chosen so that packet + index + zx(imm) is
+    /// the intended in-bounds address (the interpreter zero-extends the immediate)
+    LdInd { size: u8, src: u8, pos: u16, split: u16, neg: Option<i32> },
     If { cond: u8, is64: bool, dst: u8, src: Src, body: Vec<Item>, els: Vec<Item> },
     Skip { body: Vec<Item> },
-    Loop { count: u8, tmp: u8, variant: u8, body: Vec<Item> },
+    /// `pre` runs once, after the counter is initialised and before the loop head: the target of
+    /// the back edge then has a predecessor that falls through into it
+    Loop { count: u8, tmp: u8, variant: u8, pre: Vec<Item>, body: Vec<Item> },
     Helper { which: u8, args: [Src; 5], post: [i32; 5] },
     Call { f: u8 },
     PtrArith { a: u8, b: u8, k: i32, cond: u8 },
@@ -127,7 +131,8 @@ fn leaf(allow_calls: bool, nfuncs: usize, allow_pkt: bool) -> BoxedStrategy<Item
     let mem = (region, memop, size(), reg(), reg(), any::<u16>(), prop_oneof![2 => Just(0i16), 2 => any::<i16>(), 1 => -200i16..200], prop_oneof![150 => Just(0u8), 1 => 1u8..9])
         .prop_map(|(region, op, size, reg, tmp, pos, split, oob)| Item::Mem { region, op, size, reg, tmp, pos, split, oob });
     let ldabs = (size(), any::<u16>()).prop_map(|(size, pos)| Item::LdAbs { size, pos });
-    let ldind = (size(), reg(), any::<u16>(), any::<u16>()).prop_map(|(size, src, pos, split)| Item::LdInd { size, src, pos, split });
+    let ldind = (size(), reg(), any::<u16>(), any::<u16>(), prop_oneof![6 => Just(None), 1 => prop_oneof![Just(-1i32), Just(i32::MIN), -70000i32..0, any::<i32>().prop_map(|x| x | i32::MIN)].prop_map(Some)])
+        .prop_map(|(size, src, pos, split, neg)| Item::LdInd { size, src, pos, split, neg });
     let helper = (any::<u8>(), [src(), src(), src(), src(), src()], [interesting_i32(), interesting_i32(), interesting_i32(), interesting_i32(), interesting_i32()])
         .prop_map(|(which, args, post)| Item::Helper { which, args, post });
     let ptr = (reg(), reg(), -64i32..64, prop::sample::select(JUMP_CONDS.to_vec())).prop_map(|(a, b, k, cond)| Item::PtrArith { a, b, k, cond });
@@ -160,7 +165,7 @@ fn items(allow_calls: bool, nfuncs: usize, allow_pkt: bool, top: bool) -> BoxedS
             5 => (prop::sample::select(JUMP_CONDS.to_vec()), any::<bool>(), reg(), src(), body.clone(), prop_oneof![3 => Just(vec![]), 1 => prop::collection::vec(inner.clone(), 1..4)])
                 .prop_map(|(cond, is64, dst, src, body, els)| Item::If { cond, is64, dst, src, body, els }),
             1 => body.clone().prop_map(|body| Item::Skip { body }),
-            2 => (1u8..6, reg(), any::<u8>(), body.clone()).prop_map(|(count, tmp, variant, body)| Item::Loop { count, tmp, variant, body }),
+            2 => (1u8..6, reg(), any::<u8>(), prop_oneof![2 => Just(vec![]), 1 => prop::collection::vec(inner.clone(), 1..3)], body.clone()).prop_map(|(count, tmp, variant, pre, body)| Item::Loop { count, tmp, variant, pre, body }),
             1 => Just(Item::EarlyExit),
         ]
     });
@@ -447,12 +452,21 @@ impl<'a> Lower<'a> {
                 let o = (*pos as usize * (self.pkt_len - n + 1)) >> 16;
                 self.emit(Insn::new(ldabs_opc(n), 0, 0, 0, o as i32));
             }
-            Item::LdInd { size, src, pos, split } => {
+            Item::LdInd { size, src, pos, split, neg } => {
                 let n = *size as usize;
                 if self.pkt_len < n || self.in_func || matches!(self.vm, VmKind::NoData) {
                     return;
                 }
                 let o = (*pos as usize * (self.pkt_len - n + 1)) >> 16;
+                if let Some(imm) = neg {
+                    // index = o - zx(imm)  (mod 2^64)
+                    let idx = (o as u64).wrapping_sub(*imm as u32 as u64);
+                    self.emit(Insn::new(LDDW, *src, 0, 0, idx as u32 as i32));
+                    self.emit(Insn::new(0, 0, 0, 0, (idx >> 32) as u32 as i32));
+                    self.emit(Insn::new(ldind_opc(n), 0, *src, 0, *imm));
+                    // the index register holds a number unrelated to any address: keep it
+                    return;
+                }
                 let k = (*split as usize * (o + 1)) >> 16;
                 self.emit(Insn::new(alu_opc(true, ALU_MOV, false), *src, 0, 0, k as i32));
                 self.emit(Insn::new(ldind_opc(n), 0, *src, 0, (o - k) as i32));
@@ -483,13 +497,15 @@ impl<'a> Lower<'a> {
                 let skip = self.out.len() - at - 1;
                 self.patch_off(at, skip);
             }
-            Item::Loop { count, tmp, variant, body } => {
+            Item::Loop { count, tmp, variant, pre, body } => {
                 if loop_depth >= 3 {
+                    self.lower_items(pre, loop_depth);
                     self.lower_items(body, loop_depth);
                     return;
                 }
                 let slot = -(16 + 8 * loop_depth as i16);
                 self.emit(Insn::new(st_opc(8), 10, 0, slot, *count as i32));
+                self.lower_items(pre, loop_depth + 1);
                 let top = self.out.len();
                 self.lower_items(body, loop_depth + 1);
                 self.emit(Insn::new(ldx_opc(8), *tmp, 10, slot, 0));
